@@ -250,7 +250,7 @@ impl Prop for C05 {
     }
     fn plan(&self, tier: Tier) -> Plan {
         match tier {
-            Tier::Quick => Plan { cases: 500_000, tape_len: 420 },
+            Tier::Quick => Plan { cases: 1_500_000, tape_len: 420 },
             Tier::Thorough => Plan { cases: 16_000_000, tape_len: 520 },
         }
     }
